@@ -89,7 +89,7 @@ func TestCheck(t *testing.T) {
 		"non-trivial = at least one honest broadcast reached every honest member AND the faulty member had at least one /msg accepted and one rejected; distinct = hash of the full adversary trace")
 	r.Assume("attribution is behavioural, no hash is re-implemented: member m signed payload P for (requester, id, session) iff m's real /sig handler answered a request carrying exactly P with a 65-byte signature; " +
 		"for an honest broadcaster the monitor takes its own local signing from the Broadcast(id,P) call and the other honest members' answers from the fact that its real client emitted the /msg (client.go sends it only after every peer answered the same request)")
-	r.Assume("the faulty member never computes a hash or a signature itself: its signatures come from a real bcast.Component holding its key (a private instance per session, re-created when its own dedup refuses), asked through the real /sig handler")
+	r.Assume("the faulty member's signatures come from a real bcast.Component holding its key (a private instance per session, re-created when its own dedup refuses), asked through the real /sig handler; the only signatures it computes itself are further valid signatures of its OWN key over a hash for which it already holds such a production signature (the (r, N-s) twin, and fresh-nonce signatures once its idea of the hash has been confirmed against the production signature)")
 	r.Assume("fakenet authenticates the stream peer like libp2p does: the faulty member can only open streams under its own peer id")
 	r.Assume("secp256k1 signatures are unforgeable: the faulty member only uses signatures it obtained through protocol responses, messages addressed to it, or its own key")
 	r.RacePkgs(false, "dkg/bcast")
